@@ -8,6 +8,9 @@ CONSTANTS
   ErrCodes = {"e1"}
   Deviations = {}
   SharedCatchPrev = FALSE
+  AdvSet = {}
+  MaxTime = 0
+  Grid = {0}
 VIEW View
 INVARIANT C01_QuiescentOK
 CHECK_DEADLOCK FALSE
